@@ -46,10 +46,16 @@ func c05Step(x *engine.Exec) []engine.Failure {
 					D := vs.DelShares[den]
 					sv := vs.ValShares[den]
 					switch {
-					case r.Panicked && strings.Contains(r.Err.Error(), "division by zero") && D != nil && D.Sign() > 0 && (sv == nil || sv.Sign() == 0 || vs.Tokens[den] == nil || vs.Tokens[den].Sign() == 0):
+					case r.Panicked && strings.Contains(r.Err.Error(), "division by zero") && D != nil && D.Sign() > 0 && (sv == nil || sv.Sign() == 0 || vs.Tokens[den] == nil || vs.Tokens[den].Sign() == 0) && slashedCompletely(x, v):
+						// the known finding is the state after a 100% slash of THIS validator; the same shape of state reached any
+						// other way (e.g. a withdrawal wiping the validator's shares after a partial slash) is not explained by it
 						cause = "delegate-to-validator-with-delegator-shares-but-no-tokens"
 					case strings.Contains(r.Err.Error(), "insufficient funds") && strings.Contains(r.Err.Error(), "spendable") && valueChangeAfterReward(x):
 						cause = "reward-pool-short"
+					case r.Panicked && strings.Contains(r.Err.Error(), "division by zero") && D != nil && D.Sign() > 0 && (sv == nil || sv.Sign() == 0) && bigAsset(s, den):
+						// full exits at >= 2e16 base units remove every validator share (clamped) but, through the rounded ratios,
+						// not every delegator share: delegator-share dust without any validator share behind it
+						cause = ratioCause
 					case r.Panicked && strings.Contains(r.Err.Error(), "division by zero") && D != nil && D.Cmp(ratI(1)) >= 0 && modulePricesZero(s, v, den):
 						// the validator's stake is worth tokens, but the module prices it through the 18-decimal ratio
 						// validatorShares/totalShares, which rounds to zero once the asset has >= 2e18 times more shares elsewhere
@@ -83,7 +89,7 @@ func c05Step(x *engine.Exec) []engine.Failure {
 					return "payout-on-rounded-up-token-amount"
 				}
 				return ""
-			case (strings.Contains(e, "insufficient delegation shares") || strings.Contains(e, "insufficient tokens")) && D != nil && D.Sign() > 0 && D.Cmp(ratI(1)) < 0:
+			case (strings.Contains(e, "insufficient delegation shares") || strings.Contains(e, "insufficient tokens")) && D != nil && D.Sign() > 0 && D.Cmp(ratI(1)) < 0 && historyHasSlash(x, -1, false):
 				return "full-exit-below-one-delegator-share"
 			case (strings.Contains(e, "insufficient delegation shares") || strings.Contains(e, "insufficient tokens")) && D != nil && vt != nil && vt.Sign() > 0 &&
 				world.RatInt(p.Reported).Cmp(p.Value) > 0 && ratMul(ratQuo(D, vt), ratSub(world.RatInt(p.Reported), p.Value)).Cmp(big.NewRat(1, 100)) >= 0 &&
@@ -92,7 +98,7 @@ func c05Step(x *engine.Exec) []engine.Failure {
 				// 0.01 window is measured in shares, so at more than one share per token the rounded-up balance can need
 				// more shares than the position has
 				return "reported-balance-rounded-up-beyond-share-window"
-			case s.Assets[p.Denom].TotalValidatorShares.IsZero() && s.Assets[p.Denom].TotalTokens.IsPositive():
+			case s.Assets[p.Denom].TotalValidatorShares.IsZero() && s.Assets[p.Denom].TotalTokens.IsPositive() && historyHasSlash(x, -1, true):
 				return "asset-fully-slashed-total-without-shares"
 			case strings.Contains(e, "insufficient delegation shares") && bigAsset(s, p.Denom) && D != nil && vt != nil && vt.Sign() > 0 &&
 				ratQuo(ratMul(world.RatInt(p.Reported), D), vt).Cmp(ratAdd(p.Shares, big.NewRat(1, 100))) <= 0:
@@ -209,6 +215,9 @@ func init() {
 		},
 	})
 }
+
+// slashedCompletely: the history (seed included) contains a slash of validator v by 100%.
+func slashedCompletely(x *engine.Exec, v int) bool { return historyHasSlash(x, v, true) }
 
 const ratioCause = "18-decimal-share-ratio-precision"
 
